@@ -367,7 +367,7 @@ def fn_exists(text, fnpath):
 HINT_DIRECTIVES = ('before', 'after', 'body-start', 'loop-body', 'loop-end')
 
 
-def weave_all(repo_src, contracts_dir, spec_dir, out_dir, extra_blocks=None, skip_hints_for=None, quarantine=None):
+def weave_all(repo_src, contracts_dir, spec_dir, out_dir, extra_blocks=None, skip_hints_for=None, quarantine=None, strip=None):
     """Weave the whole crate.  returns a dict describing what was done (also written to out_dir/weave.json)."""
     if os.path.exists(out_dir):
         shutil.rmtree(out_dir)
@@ -389,7 +389,11 @@ def weave_all(repo_src, contracts_dir, spec_dir, out_dir, extra_blocks=None, ski
             for b in blocks:
                 if b.directive in ('fn', 'loop', 'wrap-arg', 'inline', 'inline-after') + HINT_DIRECTIVES and (fname, split_args(b.args)[0]) in quarantine:
                     if b.directive == 'fn' and fn_exists(norm, split_args(b.args)[0]):
-                        if not any('external_body' in l for l in b.lines):
+                        if strip and (fname, split_args(b.args)[0]) in strip:
+                            # even the contract no longer type-checks (e.g. a renamed parameter): no specification at all
+                            b.lines = ['#[verifier::external_body]  // QUARANTINED by the runner, contract dropped']
+                            b.__init__(b.bid, b.directive, b.args, b.lines, b.sidecar, b.sidecar_line)
+                        elif not any('external_body' in l for l in b.lines):
                             b.lines = ['#[verifier::external_body]  // QUARANTINED by the runner'] + b.lines
                             b.__init__(b.bid, b.directive, b.args, b.lines, b.sidecar, b.sidecar_line - 1)
                         kept.append(b)
@@ -460,7 +464,7 @@ def weave_all(repo_src, contracts_dir, spec_dir, out_dir, extra_blocks=None, ski
         lost_fns = set(info['lost_fns']) | set(quarantine or ())
         if quarantine and lost_fns <= set(quarantine):
             raise AnchorError('; '.join(info['lost_anchors']))
-        info2 = weave_all(repo_src, contracts_dir, spec_dir, out_dir, extra_blocks=extra_blocks, skip_hints_for=skip_hints_for, quarantine=lost_fns)
+        info2 = weave_all(repo_src, contracts_dir, spec_dir, out_dir, extra_blocks=extra_blocks, skip_hints_for=skip_hints_for, quarantine=lost_fns, strip=strip)
         info2['auto_quarantined'] = sorted('%s::%s' % k for k in lost_fns)
         info2['lost_anchors'] = info['lost_anchors'] + info2.get('lost_anchors', [])
         return info2
